@@ -51,7 +51,7 @@ def flit(x: float) -> str:
 
 
 def natlist(l) -> str:
-    return '[' + '; '.join(str(int(v)) for v in l) + ']'
+    return '[' + '; '.join(f'{int(v)}%nat' for v in l) + ']'
 
 
 def coqlist(items) -> str:
